@@ -549,4 +549,239 @@ def getShape (r : ShapeRule) (f : ShapeFields) : Except Err (List Int) :=
       else .ok f.dims
   | _ => .ok f.dims
 
+/-! ### a REUSED header: `klass(data, affine, header)` with the header of another image
+    (spatialimages.py:476-525 `SpatialImage.__init__` → `header_class.from_header(header)` → `update_header()`;
+    `update_header` runs again at the start of every `to_file_map`, analyze.py:1008 / mghformat.py:552) -/
+
+/-- `set_data_shape(shape)` on a header in ANY prior state `f0` (analyze.py:608-634, nifti1.py:1032-1068):
+    `dim` is rewritten completely (`dims[:] = 1; dims[0] = ndims; dims[1:ndims+1] = shape`); `glmin` is
+    written only by the long-vector convention, otherwise whatever an earlier call left there stays.
+    `setShape` (above) is this function on the fresh header `⟨[], 0⟩` (Lemmas `setShape_eq_on`). -/
+def setShapeOn (r : ShapeRule) (dimMax glminMax : Nat) (f0 : ShapeFields) (shape : List Nat) :
+    Except Err ShapeFields :=
+  match r with
+  | .nifti1 =>
+      if shape.take 3 = [163842, 1, 1] then
+        storeDims dimMax (natsToInts ([27307, 1, 6] ++ shape.drop 3)) f0.glmin
+      else if 3 ≤ shape.length ∧ (shape.drop 1).take 2 = [1, 1] ∧ dimMax < shape.headD 0 then
+        if glminMax < shape.headD 0 then .error .headerData
+        else storeDims dimMax ((-1 : Int) :: 1 :: 1 :: natsToInts (shape.drop 3)) (shape.headD 0)
+      else storeDims dimMax (natsToInts shape) f0.glmin
+  | _ => storeDims dimMax (natsToInts shape) f0.glmin
+
+/-- `get_data_shape()` including the fresh header: `dim[0] == 0` reports `(0,)` (analyze.py:601-603) -/
+def hdrGetShape (r : ShapeRule) (f : ShapeFields) : Except Err (List Int) :=
+  if f.dims = [] then .ok [0] else getShape r f
+
+/-- the shape part of `SpatialImage.update_header` (spatialimages.py:546-552):
+    `if hdr.get_data_shape() != shape: hdr.set_data_shape(shape)` — ANY difference rewrites the header -/
+def updateHeaderShape (r : ShapeRule) (dimMax glminMax : Nat) (f0 : ShapeFields) (shape : List Nat) :
+    Except Err ShapeFields :=
+  match hdrGetShape r f0 with
+  | .error e => .error e
+  | .ok hs => if hs = natsToInts shape then .ok f0 else setShapeOn r dimMax glminMax f0 shape
+
+/-- the seeded "tolerant" variant: the header is left alone when its shape is the data shape followed only
+    by length-1 axes (`hdr_shape[:n] == shape and all(s == 1 for s in hdr_shape[n:])`) -/
+def updateHeaderShapeTolerant (r : ShapeRule) (dimMax glminMax : Nat) (f0 : ShapeFields) (shape : List Nat) :
+    Except Err ShapeFields :=
+  match hdrGetShape r f0 with
+  | .error e => .error e
+  | .ok hs =>
+      if hs.take shape.length = natsToInts shape ∧ (hs.drop shape.length).all (· == 1) then .ok f0
+      else setShapeOn r dimMax glminMax f0 shape
+
+/-- what C01 tracks of an Analyze-family header object: byte order, data-type code, shape fields -/
+structure HdrState where
+  endian : Endian
+  dtype : DType
+  fields : ShapeFields
+  deriving Repr, DecidableEq, Inhabited
+
+/-- `AnalyzeHeader.from_header(donor)` (analyze.py:352-409; Nifti1Header.from_header adds extensions only):
+    * `type(donor) == klass` → `donor.copy()`: byte order, dtype code and every field kept;
+    * otherwise a FRESH header of the target class in NATIVE byte order; an Analyze-type donor hands its raw
+      fields over through `as_analyze_map()` (so `glmin` is copied when both classes have the field — `dim`
+      too, but it is rewritten next); then `set_data_dtype(donor.get_data_dtype())`,
+      `set_data_shape(donor.get_data_shape())` (which may refuse: HeaderDataError).
+      A donor dtype the target class has no code for is refused first (HeaderDataError, analyze.py:393-401):
+      `supports` is the target's `_data_type_codes` membership (regenerated table `Gen.dtypeCodes`).
+    `donorShape` is `donor.get_data_shape()` by the DONOR's rule; `glminMax = 0` says the target class has no
+    `glmin` field. -/
+def fromHeader (same : Bool) (native : Endian) (r : ShapeRule) (dimMax glminMax : Nat) (supports : DType → Bool)
+    (donorHasGlmin : Bool) (donor : HdrState) (donorShape : List Nat) : Except Err HdrState :=
+  if same then .ok donor
+  else if !supports donor.dtype then .error .headerData     -- analyze.py:393-401 "does not support it"
+  else
+    let g := if donorHasGlmin ∧ glminMax ≠ 0 then donor.fields.glmin else 0
+    match setShapeOn r dimMax glminMax ⟨[], g⟩ donorShape with
+    | .error e => .error e
+    | .ok f => .ok ⟨native, donor.dtype, f⟩
+
+/-! MGH header state = the four numbers of `dims` (mghformat.py:295-316) -/
+
+/-- `MGHHeader()` : `dims = [1, 1, 1, 1]` -/
+def mghFreshDims : List Nat := [1, 1, 1, 1]
+
+/-- `MGHHeader.set_data_shape` -/
+def mghSetDims (shape : List Nat) : Except Err (List Nat) :=
+  if shape.length > 4 then .error .value else .ok (shape ++ List.replicate (4 - shape.length) 1)
+
+/-- `MGHHeader.get_data_shape` -/
+def mghGetShape (dims : List Nat) : List Nat := if dims.getD 3 0 = 1 then dims.take 3 else dims
+
+/-- `update_header` of an MGH image whose header holds `dims0` -/
+def mghUpdate (dims0 : List Nat) (shape : List Nat) : Except Err (List Nat) :=
+  if mghGetShape dims0 = shape then .ok dims0 else mghSetDims shape
+
+/-- `MGHImage.to_file_map` with a header that arrives holding `dims0` (fresh, or copied from an MGH donor) -/
+def mghWriteOn (dims0 : List Nat) (hdr ftr : List Nat) (cw : Nat) (imgShape : List Nat) (A : List Nat → Elem) :
+    Except Err (List Nat × List Nat) :=
+  match mghUpdate dims0 imgShape with
+  | .error e => .error e
+  | .ok dims =>
+      if imgShape ≠ mghGetShape dims then .error .headerData
+      else .ok (dims, padTo mghDataOffset hdr ++ writeData .big cw imgShape A ++ ftr)
+
+/-! ### views of memory maps (volumeutils.py:392-407 `maps_file`, after `fix: copy data viewed from a memory map
+    before opening the save target for writing` and `fix: maps_file follows memoryview and array-interface owners
+    to the memory map`; used by analyze.py:1004-1007 and mghformat.py:548-551) -/
+
+/-- one link of the chain of OWNERS of an array's memory, as far as `maps_file` looks at it.  The chain is
+    `arr, next(arr), next(next(arr)), …` with `next(x) = x.obj` for a memoryview and `getattr(x, 'base', None)` for
+    anything else, up to (not including) the final `None`. -/
+inductive BaseNode where
+  | memmap     -- an `np.memmap` instance
+  | ndarray    -- any other `np.ndarray` (base class or another subclass)
+  | mmapBuf    -- an `mmap.mmap` object
+  | memview    -- a `memoryview` (np.frombuffer(mmap) puts one between the array and the mmap)
+  | other      -- anything else (bytes, bytearray, the array-interface holder of as_strided, …)
+  deriving Repr, DecidableEq, Inhabited
+
+/-- `maps_file(arr)`:
+    `while arr is not None: if isinstance(arr, (np.memmap, mmap.mmap)): return True;`
+    `arr = arr.obj if isinstance(arr, memoryview) else getattr(arr, 'base', None)`; `return False` -/
+def mapsFile : List BaseNode → Bool
+  | [] => false
+  | .memmap :: _ => true
+  | .mmapBuf :: _ => true
+  | .ndarray :: rest => mapsFile rest
+  | .memview :: rest => mapsFile rest
+  | .other :: rest => mapsFile rest
+
+/-- the guard before both fixes: `isinstance(data, np.memmap)` on the array itself only -/
+def mapsFileOrig : List BaseNode → Bool
+  | .memmap :: _ => true
+  | _ => false
+
+/-- the guard between the two fixes (ae98171b): the `.base` chain was followed through `np.ndarray`s only and
+    ended with `isinstance(arr, mmap.mmap)` -/
+def mapsFileArraysOnly : List BaseNode → Bool
+  | [] => false
+  | .memmap :: _ => true
+  | .ndarray :: rest => mapsFileArraysOnly rest
+  | .mmapBuf :: _ => true
+  | .memview :: _ => false
+  | .other :: _ => false
+
+/-- some owner in the chain is a memory map (an `np.memmap` or the `mmap.mmap` buffer itself): the array still
+    reads from the mapped file -/
+def ReachesMap (chain : List BaseNode) : Prop :=
+  ∃ x ∈ chain, x = BaseNode.memmap ∨ x = BaseNode.mmapBuf
+
+/-- the narrower notion the ae98171b guard implemented: a map reached through plain arrays only -/
+def ReachesMapThroughArrays (chain : List BaseNode) : Prop :=
+  ∃ pre x post, chain = pre ++ x :: post ∧ (∀ n ∈ pre, n = BaseNode.ndarray) ∧ (x = .memmap ∨ x = .mmapBuf)
+
+/-- `load(f)`, wrap the loaded data in any chain of views, `klass(view, affine, header).to_filename(f)`:
+    `mapped` says whether the data are a window onto `f`; they are copied before the target is opened for
+    writing iff the guard answers True (data held in memory need no copy) -/
+def resaveVia (guard : List BaseNode → Bool) (hb : List Nat) (offset : Nat) (e : Endian) (cw k : Nat)
+    (shape : List Nat) (A : List Nat → Elem) (mapped : Bool) (chain : List BaseNode) : Except Err (List Nat) :=
+  resave hb offset e cw k shape A (!mapped || guard chain)
+
+/-! ### the `dtype=` argument again, with byte orders that are NOT identified by construction
+    (analyze.py:545-583 get/set_data_dtype, :1009-1015 and :1058-1066 to_file_map, :929-975 from_file_map) -/
+
+/-- a NumPy dtype OBJECT: what it describes and its own byte order (`'='`/`'|'` resolved to the machine's) -/
+structure NpDType where
+  t : DType
+  order : Endian
+  deriving Repr, DecidableEq, Inhabited
+
+/-- `_data_type_codes` of a header class: (dtype, code); keyed by the dtype in BOTH byte orders -/
+abbrev CodeTable := List (DType × Nat)
+
+def codeOf (tb : CodeTable) (t : DType) : Option Nat := (tb.find? (fun p => p.1 == t)).map (·.2)
+def dtypeOfCode (tb : CodeTable) (c : Nat) : Option DType := (tb.find? (fun p => p.2 == c)).map (·.1)
+
+/-- the table of a class from regenerated (dtype name, code) pairs; names the model does not know are dropped
+    (`code_tables_generated` shows none is) -/
+def codeTableOfNames (l : List (String × Nat)) : CodeTable :=
+  l.filterMap (fun nc => (dtypeOfName nc.1).map (fun t => (t, nc.2)))
+
+/-- every dtype of the table is found again under its code (no two dtypes share a code) -/
+def CodeTable.okB (tb : CodeTable) : Bool := tb.all (fun p => dtypeOfCode tb p.2 == some p.1 && codeOf tb p.1 == some p.2)
+
+/-- the in-memory header: byte order of the struct (fixed at construction / load) and the `datatype` CODE -/
+structure HdrC where
+  endian : Endian
+  code : Nat
+  deriving Repr, DecidableEq, Inhabited
+
+/-- what is on disk: the same two facts, as the reader finds them (the byte order of a header is recognised from
+    its `sizeof_hdr` field, the dtype from the code) -/
+structure WrittenHdr where
+  endian : Endian
+  code : Nat
+  deriving Repr, DecidableEq, Inhabited
+
+/-- `hdr.set_data_dtype(d)`: the code of `d`'s type; `d`'s own byte order is dropped; unknown → HeaderDataError -/
+def HdrC.setDType (tb : CodeTable) (h : HdrC) (d : NpDType) : Except Err HdrC :=
+  match codeOf tb d.t with
+  | some c => .ok { h with code := c }
+  | none => .error .headerData
+
+/-- `hdr.get_data_dtype()`: `dtype_of_code.newbyteorder(self.endianness)` -/
+def HdrC.getDType (tb : CodeTable) (h : HdrC) : Except Err NpDType :=
+  match dtypeOfCode tb h.code with
+  | some t => .ok ⟨t, h.endian⟩
+  | none => .error .headerData
+
+/-- which dtype object `to_file_map` hands to the ArrayWriter -/
+inductive OrderPolicy where
+  | header      -- the real code: `out_dtype = hdr.get_data_dtype()` after `hdr.set_data_dtype(dtype)`
+  | override    -- the seeded variant: `out_dtype = np.dtype(dtype)` (the override's own byte order)
+  deriving Repr, DecidableEq, Inhabited
+
+/-- `AnalyzeImage.to_file_map(file_map, dtype=ovr)`: (dtype object given to the writer, header as written,
+    the image's header afterwards) -/
+def saveDT (tb : CodeTable) (pol : OrderPolicy) (h : HdrC) (ovr : Option NpDType) :
+    Except Err (NpDType × WrittenHdr × HdrC) :=
+  let saved := h.code
+  match (match ovr with | some d => h.setDType tb d | none => .ok h) with
+  | .error e => .error e
+  | .ok hw =>
+    match hw.getDType tb with
+    | .error e => .error e
+    | .ok out =>
+      let wdt := match pol, ovr with
+        | .override, some d => d
+        | _, _ => out
+      .ok (wdt, ⟨hw.endian, hw.code⟩, { hw with code := saved })
+
+/-- the data file a save writes: the writer encodes with ITS dtype object's byte order and width -/
+def writeFileC (tb : CodeTable) (pol : OrderPolicy) (hb : List Nat) (offset : Nat) (h : HdrC) (ovr : Option NpDType)
+    (shape : List Nat) (A : List Nat → Elem) : Except Err (List Nat × WrittenHdr) :=
+  match saveDT tb pol h ovr with
+  | .error e => .error e
+  | .ok (wdt, wh, _) => .ok (writeFile hb offset wdt.order wdt.t.cw shape A, wh)
+
+/-- `from_file_map`: the reader knows ONLY what is on disk: the written header's byte order and code -/
+def readFileC (tb : CodeTable) (file : List Nat) (offset : Nat) (wh : WrittenHdr) (shape : List Nat) :
+    Except Err (List Nat × List Elem) :=
+  match dtypeOfCode tb wh.code with
+  | none => .error .headerData
+  | some t => readData file offset wh.endian t.cw t.k shape
+
 end Nb.C01
